@@ -104,7 +104,9 @@ def run(ctx):
             except Exception as e:  # noqa: BLE001
                 fails.append({"kind": kind, "zone": key, "ts": ts, "error": repr(e)})
                 continue
-            if inst(p) != ts * 10 ** 6 or p.utcoffset() != src.utcoffset():
+            # the instant the SOURCE object denotes (wall clock minus its own utcoffset): dateutil renders some historical instants
+            # wrongly (Europe/London double summer time 1942-43), which is not pendulum's business - instance() must keep what it is given
+            if inst(p) != inst(src) or p.utcoffset() != src.utcoffset():
                 amb = a > b and 0 <= ts - T < a - b
                 fails.append({"kind": kind, "zone": key, "ts": ts, "src": src.isoformat(), "got": p.isoformat(), "ambiguous": bool(amb),
                               "is_dst": bool(src.dst()) if kind == "pytz" else None})
